@@ -597,8 +597,14 @@ func MakeForeign(r *rng.R, opts ForeignOpts) *Foreign {
 				break
 			}
 		}
-		f.put("word/media/"+logo, string(himg.Data))
-		f.Media = append(f.Media, "word/media/"+logo)
+		if len(f.Media) > 0 && r.Chance(1, 3) {
+			// the header shows a picture file the body shows too: one media part, reached from two relationship parts
+			logo = strings.TrimPrefix(f.Media[r.Intn(len(f.Media))], "word/media/")
+			w.feature("header-shares-body-media")
+		} else {
+			f.put("word/media/"+logo, string(himg.Data))
+			f.Media = append(f.Media, "word/media/"+logo)
+		}
 		w.feature("header-media:" + logo)
 		if !addDefault["png"] {
 			addDefault["png"] = true
